@@ -62,6 +62,9 @@ def _configs(tier, seed):
         _cfg((3, 2, 1), (2, 2, 2), "uint64", "uint64", enc="compressed_segmentation", block=(2, 2, 2), cost=6),
         _cfg((2, 2, 2), (2, 2, 1), "uint32", "uint32", enc="compressed_segmentation", block=(2, 2, 1), layout="sharded", full=False, cost=6),
         _cfg((3, 2, 2), (2, 2, 2), "int16", "uint8", layout="flat"),
+        # signed inputs into unsigned targets at least as wide (negative voxels must clip to 0, not wrap)
+        _cfg((3, 2, 1), (2, 2, 1), "int16", "uint16"), _cfg((2, 2, 1), (2, 2, 1), "int8", "uint32", layout="gzip", full=False),
+        _cfg((2, 1, 2), (2, 1, 1), "int32", "uint64", layout="flat"),
         _cfg((2, 3, 1), (1, 2, 1), "uint16", "float32", full=False),
         _cfg((2, 2, 2), (2, 2, 2), "uint8", "uint32", enc="compressed_segmentation", block=(2, 2, 2), cost=6),
         _cfg((3, 1, 2), (2, 2, 2), "uint8", "uint8", scaling=(0.5, 10.0)),
@@ -308,6 +311,21 @@ def _replay_rgb(cfg, inp):
     return False, "every RGB voxel preserved on the real code"
 
 
+def _reference_convert(src, o):
+    """nearest / saturating conversion written from the property statement (independent of the code under test)"""
+    from fractions import Fraction
+    from .c11 import _nearest
+    odt = real_np.dtype(o)
+    if src.dtype == odt:
+        return src
+    out = real_np.empty(src.shape, dtype=odt)
+    for idx in real_np.ndindex(*src.shape):
+        v = src[idx]
+        x = Fraction(int(v)) if src.dtype.kind in "ui" else Fraction(float(v))
+        out[idx] = _nearest(x, o)
+    return out
+
+
 def replay(cfg, cex):
     import os
     import tempfile
@@ -407,8 +425,7 @@ def replay(cfg, cex):
                         src = exp[cc[0]:cc[1], cc[2]:cc[3], cc[4]:cc[5], :]
                         if sc:
                             src = src.astype(real_np.float64) * sc[0] + sc[1]
-                        tr = load.mod("data_types").get_chunk_dtype_transformer(src.dtype, o, warn=False)
-                        want = real_np.moveaxis(real_np.array(tr(src)), (0, 1, 2, 3), (3, 2, 1, 0))
+                        want = real_np.moveaxis(_reference_convert(src, o), (0, 1, 2, 3), (3, 2, 1, 0))
                         if ch.shape != want.shape or ch.tobytes() != real_np.ascontiguousarray(want).tobytes():
                             return True, f"chunk {cc}: stored {ch.ravel().tolist()} expected {want.ravel().tolist()}"
         except Exception as e:
